@@ -50,3 +50,6 @@ def judge(case, impl, model):
     corr, why = V.correspondence(case, impl, model)
     return {'corr': corr, 'why': why, 'pfail': V.pfail_byname(case, impl, model), 'finding': None,
             'nontrivial': V.nontrivial(case, impl), 'tag': V.tag_of(case, impl)}
+
+
+twins = V.twins      # amplified run: the call preceded by the same call with number twins (0 / False / 0.0 ...)
